@@ -92,7 +92,8 @@ struct HeapStats {
 HeapStats heap_stats();
 int heap_tag(int tag); // sets the current thread's allocation tag, returns previous
 long heap_live_with_tag(int tag);
-bool heap_is_live(const void* p); // p points into a live arena block
+bool heap_is_live(const void* p);
+void heap_note_live(int tag);     // lists the live blocks carrying `tag` in the execution's notes // p points into a live arena block
 
 // ---------------------------------------------------------------- registry
 struct Test {
